@@ -572,30 +572,26 @@ Definition bounds_okb := bounds_gen true.
 
 (* ---------------- decoder ---------------- *)
 
-(* Go zero value of a type (target of a missing non-omitempty field / short array) *)
-Fixpoint zero_val (fuel : nat) : schema -> value :=
-  fix go (s : schema) : value :=
-    match s with
-    | SUint _ => VUint 0
-    | SInt _ => VInt 0
-    | SBool => VBool false
-    | SBytes _ => VNil
-    | SString _ => VBytes []
-    | SFixBytes n => VBytes (repeat 0 (N.to_nat n))
-    | SArray n e => VList (repeat (go e) (N.to_nat n))
-    | SSlice _ _ | SMap _ _ _ | SPtr _ => VNil
-    | SStruct fs =>
-        VStruct ((fix gof (fs : list (fhdr * schema)) : list value :=
-                    match fs with
-                    | [] => []
-                    | (h, fsch) :: fs' => (if f_oe h then VDefault else go fsch) :: gof fs'
-                    end) fs)
-    | SRef id =>
-        match fuel with
-        | O => VDefault
-        | S fuel' => match lookup id with Some s' => VRef (zero_val fuel' s') | None => VDefault end
-        end
-    end.
+(* Go zero value of a type (target of a missing non-omitempty field / short array).  The zero value of
+   a called named type is left abstract ([VDefault]): no decoder call is made for it. *)
+Fixpoint zero_val (s : schema) : value :=
+  match s with
+  | SUint _ => VUint 0
+  | SInt _ => VInt 0
+  | SBool => VBool false
+  | SBytes _ => VNil
+  | SString _ => VBytes []
+  | SFixBytes n => VBytes (repeat 0 (N.to_nat n))
+  | SArray n e => VList (repeat (zero_val e) (N.to_nat n))
+  | SSlice _ _ | SMap _ _ _ | SPtr _ => VNil
+  | SStruct fs =>
+      VStruct ((fix gof (fs : list (fhdr * schema)) : list value :=
+                  match fs with
+                  | [] => []
+                  | (h, fsch) :: fs' => (if f_oe h then VDefault else zero_val fsch) :: gof fs'
+                  end) fs)
+  | SRef _ => VDefault
+  end.
 
 Fixpoint set_nth {A} (i : nat) (x : A) (l : list A) : list A :=
   match l, i with
@@ -758,7 +754,7 @@ Fixpoint dec (d : nat) (id : N) (b : bytes) {struct d} : res (value * bytes) :=
   | O => Err EDepth
   | S d' => match lookup id with
             | None => Err ESchema
-            | Some s => dec_s (dec d') (zero_val (length env)) s b
+            | Some s => dec_s (dec d') zero_val s b
             end
   end.
 
